@@ -160,7 +160,7 @@ def history_strategy():
         base = draw(tflgen.network("npu", max_ops=4, big=False, dtypes=("int8", "int8", "uint8")))
         pool = [base]
         twins = False
-        how = draw(st.sampled_from(["lut-twin", "lut-twin", "independent", "same-weights", "same-buffer"]))
+        how = draw(st.sampled_from(["lut-twin", "lut-twin", "independent", "same-weights", "same-buffer", "option-twin", "option-twin"]))
         if how == "lut-twin":
             # two networks ending in the same activation with equal quantisation -> identical LUT contents
             import copy
@@ -176,6 +176,40 @@ def history_strategy():
                 s["ops"].append(dict(code="TANH", inputs=[len(s["tensors"]) - 2], outputs=[len(s["tensors"]) - 1], opts=None, version=2))
                 s["outputs"] = [len(s["tensors"]) - 1] + s["outputs"][1:]
                 pool.append(s)
+            twins = True
+        elif how == "option-twin":
+            # two networks that differ in nothing but one option value of one operator (the GELU variant, the LEAKY_RELU slope, the SOFTMAX beta, a fused activation):
+            # whatever the compiler derives from that operator (tables, scales, clamps) must not be remembered under a key that leaves the option out
+            import copy
+
+            s = draw(tflgen.network("exact", max_ops=2, big=False, dtypes=("int8",)))
+            last = s["outputs"][0]
+            t = dict(s["tensors"][last])
+            kind = draw(st.sampled_from(["GELU", "GELU", "LEAKY_RELU", "SOFTMAX", "FAF"]))
+            s["tensors"].append(dict(name="common_q", shape=t["shape"], dtype=t["dtype"], scale=draw(st.sampled_from([0.05, 0.02, 0.1])), zp=draw(st.integers(-20, 20)), data=None, qdim=0))
+            s["ops"].append(dict(code="QUANTIZE", inputs=[last], outputs=[len(s["tensors"]) - 1], opts=dict(table="QuantizeOptions", fields={}), version=2))
+            src = len(s["tensors"]) - 1
+            if kind == "SOFTMAX":
+                s["tensors"].append(dict(name="tail_out", shape=t["shape"], dtype=t["dtype"], scale=1.0 / 256, zp=-128, data=None, qdim=0))
+                op = dict(code="SOFTMAX", inputs=[src], outputs=[len(s["tensors"]) - 1], opts=dict(table="SoftmaxOptions", fields=dict(Beta=1.0)), version=2)
+                alt = dict(Beta=draw(st.sampled_from([0.5, 2.0])))
+            elif kind == "FAF":
+                s["tensors"].append(dict(name="tail_out", shape=t["shape"], dtype=t["dtype"], scale=0.1, zp=0, data=None, qdim=0))
+                op = dict(code="ADD", inputs=[src, src], outputs=[len(s["tensors"]) - 1], opts=dict(table="AddOptions", fields=dict(FusedActivationFunction=0)), version=2)
+                alt = dict(FusedActivationFunction=draw(st.sampled_from([1, 3])))
+            else:
+                s["tensors"].append(dict(name="tail_out", shape=t["shape"], dtype=t["dtype"], scale=draw(st.sampled_from([0.05, 0.03])), zp=draw(st.integers(-10, 10)), data=None, qdim=0))
+                if kind == "GELU":
+                    op = dict(code="GELU", inputs=[src], outputs=[len(s["tensors"]) - 1], opts=dict(table="GeluOptions", fields=dict(Approximate=draw(st.booleans()))), version=2)
+                    alt = dict(Approximate=not op["opts"]["fields"]["Approximate"])
+                else:
+                    op = dict(code="LEAKY_RELU", inputs=[src], outputs=[len(s["tensors"]) - 1], opts=dict(table="LeakyReluOptions", fields=dict(Alpha=0.1)), version=2)
+                    alt = dict(Alpha=draw(st.sampled_from([0.2, 0.01, 0.5])))
+            s["ops"].append(op)
+            s["outputs"] = [len(s["tensors"]) - 1] + s["outputs"][1:]
+            s2 = copy.deepcopy(s)
+            s2["ops"][-1]["opts"]["fields"].update(alt)
+            pool += [s, s2]
             twins = True
         elif how == "same-buffer":
             # one model converted several times from the same in-memory buffer; its graph contains constants the compiler rewrites while optimising (a PAD over channels and
@@ -201,6 +235,9 @@ def history_strategy():
             c.pop("extra", None)
         n = draw(st.integers(2, 8))
         steps = [dict(model=draw(st.integers(0, len(pool) - 1)), cfg=draw(st.integers(0, len(cfgs) - 1)), entry=draw(st.sampled_from(["main", "main", "main", "convert", "convert_bytes"]))) for _ in range(n)]
+        if how == "option-twin":
+            a, b = draw(st.permutations([1, 2]))
+            steps = [dict(model=a, cfg=0, entry=steps[0]["entry"]), dict(model=b, cfg=0, entry=steps[1]["entry"])] + steps[: max(0, n - 2)]
         if how == "same-buffer":
             steps = [dict(model=0, cfg=0, entry="convert_bytes"), dict(model=0, cfg=0, entry="convert_bytes")] + steps[: max(0, n - 2)]
         return dict(kind="history", pool=pool, cfgs=cfgs, steps=steps, twins=twins)
